@@ -160,6 +160,8 @@ func (e *gev) String() string {
 	return fmt.Sprintf("round %d caller %d %s %s: lease valid before/after %v/%v, remembered leader is itself %v -> %s", e.round, e.caller, e.phase, e.kind, e.before, e.after, e.remembered, a)
 }
 
+var gateOnce sync.Once
+
 func runGate(c GCase) (info vkit.Info, err error) {
 	if os.Getenv("VERIF_REPLAY") != "" {
 		defer livesrv.ShutdownAll()
@@ -172,6 +174,10 @@ func runGate(c GCase) (info vkit.Info, err error) {
 	// live servers run on the real clock; this property owns the election clock while a case runs
 	tso.SetVerifClock(nil, nil)
 	election.SetVerifClock(nil, nil)
+	// the thorough tier's grpc property (registered before this one) leaves its 3-member cluster running; its
+	// leader's coordinator may still wait for its regions, which the single-member fixture's start-up check
+	// ("no coordinator is starting in this process") would take for its own
+	gateOnce.Do(livesrv.ShutdownMulti)
 	fx := livesrv.MustGet()
 	n := fx.Node()
 	if !n.WaitServing(40 * time.Second) {
